@@ -23,7 +23,10 @@ class Out:
         return self.ctx.run_lines([self.impl] + (["-K"] if keep else []), cases)
 
     def run_model(self, cases, keep=False):
-        return self.ctx.run_lines([self.model] + (["-K"] if keep else []), cases, env={"OCAMLRUNPARAM": "l=4G"}, crash_tag="MODEL-CRASH")
+        # the model is a total function and cannot hang, but it needs 5-7 s for a 128 KiB line (lists of N):
+        # give it time on a loaded machine rather than report a timeout as a disagreement
+        return self.ctx.run_lines([self.model] + (["-K"] if keep else []), cases, timeout_per_case=300.0,
+                                  env={"OCAMLRUNPARAM": "l=4G"}, crash_tag="MODEL-CRASH")
 
 
 def s_label(host, keep):
